@@ -6,7 +6,9 @@
 //!   bcverif serve ...                               the real server over a real store (child process role)
 
 mod checks;
+mod dirmodel;
 mod orch;
+mod plan;
 mod rng;
 mod scan;
 mod seqeng;
@@ -108,7 +110,7 @@ fn main() {
             let scratch = orch::shm_base();
             let _ = std::fs::remove_dir_all(&scratch);
             std::fs::create_dir_all(&scratch).expect("scratch dir");
-            let ctx = Ctx { id: id.clone(), tier, seed, shard, nshards, out_path: out_path.clone(), scratch: scratch.clone(), only_case: None, mode };
+            let ctx = Ctx { id: id.clone(), tier, seed, shard, nshards, out_path: out_path.clone(), scratch: scratch.clone(), only_case: None, mode, detail: serde_json::Value::Null };
             let check = checks::get(&id).expect("known property");
             let mut out = Out::default();
             let res = std::panic::catch_unwind(std::panic::AssertUnwindSafe(|| (check.worker)(&ctx, &mut out)));
@@ -134,7 +136,7 @@ fn main() {
             let mode = rp["mode"].as_str().unwrap_or("").to_string();
             let scratch = orch::shm_base();
             std::fs::create_dir_all(&scratch).expect("scratch dir");
-            let ctx = Ctx { id: id.clone(), tier, seed, shard: 0, nshards: 1, out_path: scratch.join("replay.json"), scratch: scratch.clone(), only_case: case, mode };
+            let ctx = Ctx { id: id.clone(), tier, seed, shard: 0, nshards: 1, out_path: scratch.join("replay.json"), scratch: scratch.clone(), only_case: case, mode, detail: rp["detail"].clone() };
             let check = checks::get(&id).expect("known property");
             let mut out = Out::default();
             let attempts = if check.timing_dependent { 20 } else { 1 };
